@@ -10,8 +10,12 @@ def scale_of(ch, quick):
   return {"1": 1.0, "s": 1e-4 if quick else 1e-6, "b": 1e4 if quick else 1e6}[ch]
 
 
-def layout(opt, nblocks, b):
+def layout(opt, nblocks, b, middle=False):
   """-> target shape, list of (slice tuple) per block in the optimizer's block order"""
+  if nblocks == 4 and middle:
+    # two blocked axes separated by a small unblocked one
+    shape = (2 * b, 2, 2 * b)
+    return shape, [(slice(r0, r0 + b), slice(0, 2), slice(c0, c0 + b)) for r0 in (0, b) for c0 in (0, b)]
   if nblocks == 2:
     shape = (2 * b, b); cuts = [[(0, b), (b, 2 * b)], [(0, b)]]
   elif nblocks == 3:
@@ -51,7 +55,7 @@ def handle(job):
   T = job.get("T", 4)
   mism, worst = [], {"blocked_vs_leaves": 0.0, "common_factor": 0.0, "companion": 0.0}
   try:
-    shape, blocks = layout(opt, case["blocks"], b)
+    shape, blocks = layout(opt, case["blocks"], b, bool(job.get("middle")))
     rs = np.random.RandomState(seed)
     sc = [scale_of(case["scales"][i % len(case["scales"])], quick) for i in range(len(blocks))]
     grads_t = []
